@@ -176,6 +176,13 @@ struct Src
     {
         return v[index(v.size())];
     }
+    // For stateful generators: true in ~3% of the calls and - because choices shrink towards
+    // their lower bound - the value every shrink attempt tries first. "if (src.skip()) continue;"
+    // in an operation loop lets the shrinker delete operations from the middle of a history.
+    bool skip()
+    {
+        return range(0, 30) == 0;
+    }
     // weighted choice, returns index; shrinks towards index 0
     std::size_t weighted(std::initializer_list<int> w)
     {
